@@ -478,8 +478,10 @@ MANIFEST_TEXT = {
     "C17": dict(
         text="Theorems over the channel pipeline as a transition system, any number of workers >= 1, any items, every schedule: "
              "conservation, no deadlock, termination by a decreasing measure, no send on a closed channel, final printed multiset "
-             "= expected, bad items isolated; skeleton of manager.go re-extracted per run. What each item yields is the Disk "
-             "model (C05-C07). The real binary is run on generated trees under three GOMAXPROCS values.",
+             "= expected, bad items isolated; skeleton of manager.go re-extracted per run. The recursive walk behind -r (fastwalk "
+             "callback + cycle cache) terminates on every tree, cyclic and aliased links included: beyond the depth walkBound(tree) "
+             "more fuel changes nothing (C17_walk_terminates; the driver runs the walk with exactly that fuel). What each item "
+             "yields is the Disk model (C05-C07). The real binary is run on generated trees under three GOMAXPROCS values.",
         note="Partial: fastwalk internals, scheduler fairness and the schedule space of the real binary are outside the model."),
     "C18": dict(
         text="Theorems: one entry per distinct pattern, content independent of the order in which the concurrent parses finish, the "
